@@ -70,6 +70,13 @@ func compare(aVal, bVal reflect.Value) (res int)
   loop 2 invariant 0 <= i && (forall j :: 0 <= j && j < i ==> keq(aVal.Index(j), bVal.Index(j)))
   ensures res == -1 || res == 0 || res == 1
   ensures [C05,C06,C12] res == 0 ==> keq(aVal, bVal)
+  -- the documented order of the kinds whose order is a comparison of numbers: integers by <, false before true,
+  -- pointers and channels by address (fmt prints maps in this key order)
+  ensures [C06] aVal.Type() == bVal.Type() && 2 <= aVal.Kind() && aVal.Kind() <= 6 ==> (aVal.Int() < bVal.Int() ==> res == -1) && (aVal.Int() > bVal.Int() ==> res == 1)
+  ensures [C06] aVal.Type() == bVal.Type() && 7 <= aVal.Kind() && aVal.Kind() <= 12 ==> (aVal.Uint() < bVal.Uint() ==> res == -1) && (aVal.Uint() > bVal.Uint() ==> res == 1)
+  ensures [C06] aVal.Type() == bVal.Type() && aVal.Kind() == 1 ==> (!aVal.Bool() && bVal.Bool() ==> res == -1) && (aVal.Bool() && !bVal.Bool() ==> res == 1)
+  ensures [C06] aVal.Type() == bVal.Type() && (aVal.Kind() == 22 || aVal.Kind() == 26) ==> (aVal.Pointer() < bVal.Pointer() ==> res == -1) && (aVal.Pointer() > bVal.Pointer() ==> res == 1)
+  ensures [C06] aVal.Type() != bVal.Type() ==> res == -1
 
 func (o *SortedMap) Less(i, j int) (r bool)
   requires 0 <= i && i < len(o.Key) && 0 <= j && j < len(o.Key)
